@@ -822,7 +822,8 @@ Theorem rollback_after_ops : forall t ops, top_level t -> base_kept t ops ->
 Proof.
   intros t ops T B. destruct (top_level_has_base _ T) as (s & H & CP & ES & ET).
   pose proof (has_base_run _ _ _ _ H B) as H'. apply rollback_has_base in H'. rewrite CP, H', ES.
-  split; [eexists; reflexivity|]. intros x. rewrite ET at 2.
+  split; [eexists; reflexivity|]. intros x. generalize (c_max (global (run_ops t ops))). intros m.
+  transitivity (resolve [global t] x); [|now rewrite <- ET].
   change [?c] with ([] ++ [c]). rewrite !resolve_snoc. unfold spec_lookup, flat. cbn [c_syms c_scope].
   now rewrite ES.
 Qed.
@@ -888,3 +889,128 @@ Proof.
   - rewrite defines_run_ops. apply rollback_after_open_body; auto.
     induction names; cbn [map]; constructor; auto.
 Qed.
+
+(* entering a block changes nothing visible *)
+Theorem enter_scope_resolve : forall t x, wf_tab t -> resolve (enter_scope t) x = resolve t x.
+Proof.
+  intros t x W. assert (HN : t <> []) by apply W. destruct (snoc_cases _ _ HN) as [tp [c ->]].
+  rewrite enter_scope_snoc, !resolve_snoc. unfold spec_lookup, flat. cbn [c_syms c_scope].
+  now rewrite concat_snoc, app_nil_r.
+Qed.
+
+(** * Examples (computed on the model) *)
+
+Section Examples.
+  Let x : text := [120%N].
+  Let y : text := [121%N].
+  Let g : text := [103%N].
+  Let a : text := [97%N].
+  Let def t n := fst (define t n).
+
+  (* shadowing in an inner scope: the inner x (slot 1) wins, y is still the outer y *)
+  Example ex_shadow :
+    let t := def (enter_scope (def (def symtab_new x) y)) x in
+    resolve t x = Some (mkSymbol SGlobal 2) /\ resolve t y = Some (mkSymbol SGlobal 1).
+  Proof. vm_compute. split; reflexivity. Qed.
+
+  (* redeclaration in the same scope resolves to the later slot *)
+  Example ex_redeclare :
+    resolve (def (def symtab_new x) x) x = Some (mkSymbol SGlobal 1).
+  Proof. vm_compute. reflexivity. Qed.
+
+  (* after leave_scope the outer one is visible again, and the inner-only name is gone *)
+  Example ex_leave :
+    let t := leave_scope (def (def (enter_scope (def symtab_new x)) x) y) in
+    resolve t x = Some (mkSymbol SGlobal 0) /\ resolve t y = None.
+  Proof. vm_compute. split; reflexivity. Qed.
+
+  (* a function context sees the globals and its own parameters but not the caller's locals *)
+  Example ex_function :
+    let caller := def (new_context (def symtab_new g)) a in      (* inside f: local a *)
+    let inner := def (new_context caller) x in                     (* inside a nested function with parameter x *)
+    resolve caller a = Some (mkSymbol SLocal 0) /\
+    resolve inner a = None /\
+    resolve inner g = Some (mkSymbol SGlobal 0) /\
+    resolve inner x = Some (mkSymbol SLocal 0) /\
+    fst (leave_context inner) = caller.
+  Proof. vm_compute. repeat split; reflexivity. Qed.
+
+  (* the hypotheses of the theorems are satisfiable by non-trivial inputs *)
+  Let ops1 := [OpDefine g; OpNewCtx; OpDefine a; OpEnter; OpDefine x; OpDefine x].
+  Let ops2 := [OpDefine x; OpEnter; OpDefine y; OpNewCtx; OpDefine a; OpLeaveCtx; OpLeave; OpDefine y].
+
+  Example ex_open_body : open_body ops1.
+  Proof.
+    unfold ops1. apply open_define, open_func, open_define, open_block, open_define, open_define, open_nil.
+  Qed.
+
+  Example ex_body : body ops2.
+  Proof.
+    unfold ops2. apply body_define.
+    apply (body_block [OpDefine y; OpNewCtx; OpDefine a; OpLeaveCtx] [OpDefine y]).
+    - apply body_define. apply (body_func [OpDefine a] []); repeat constructor.
+    - repeat constructor.
+  Qed.
+
+  Example ex_wf : wf_tab (run_ops symtab_new ops1) /\ 2 <= length (run_ops symtab_new ops1).
+  Proof.
+    split; [|vm_compute; lia].
+    unfold wf_tab. vm_compute. split; [discriminate|]. split; [reflexivity|]. split; [repeat constructor|].
+    repeat constructor; discriminate.
+  Qed.
+
+  Example ex_top_level : top_level (def symtab_new g) /\ wf_tab (def symtab_new g).
+  Proof. split; [eexists _, _; split; reflexivity|]. apply define_wf, wf_symtab_new. Qed.
+
+  Example ex_rollback :
+    let t := def symtab_new g in
+    resolve (rollback (run_ops t ops1) (checkpoint t)) g = Some (mkSymbol SGlobal 0) /\
+    resolve (rollback (run_ops t ops1) (checkpoint t)) x = None.
+  Proof. vm_compute. split; reflexivity. Qed.
+
+  (* a renaming that is injective: prefix every name with an underscore *)
+  Example ex_rename : forall t n, resolve (map_tab (cons 95%N) t) (95%N :: n) = resolve t n.
+  Proof. intros. apply (resolve_rename_injective (cons 95%N)). intros p q E. now injection E. Qed.
+  (* a function with parameter a, a block declaring x, a nested function: the hypotheses of
+     slot_below_num_locals hold and num_locals = 2 covers slots 0 (a) and 1 (x) *)
+  Let ops3 := [OpEnter; OpDefine x; OpNewCtx; OpDefine y; OpLeaveCtx; OpLeave].
+  Example ex_alive :
+    let t := new_context (def symtab_new g) in
+    let t1 := def t a in
+    alive (length t - 1) t1 ops3 /\ length (run_ops t1 ops3) = length t /\
+    snd (leave_context (run_ops t1 ops3)) = 2 /\ base_kept t1 ops3.
+  Proof. vm_compute. repeat split; try discriminate; repeat constructor. Qed.
+End Examples.
+
+Print Assumptions text_eqb_eq.
+Print Assumptions resolve_refines_lookup_all.
+Print Assumptions resolve_refines_lookup.
+Print Assumptions last_occ_Some.
+Print Assumptions define_spec.
+Print Assumptions resolve_found.
+Print Assumptions context_isolation.
+Print Assumptions resolve_skips_callers.
+Print Assumptions resolve_new_context.
+Print Assumptions resolve_None.
+Print Assumptions slots_injective.
+Print Assumptions slot_bound.
+Print Assumptions define_slot_bound.
+Print Assumptions leave_context_max.
+Print Assumptions max_at_mono.
+Print Assumptions slot_below_num_locals.
+Print Assumptions body_extends.
+Print Assumptions enter_body_leave.
+Print Assumptions enter_body_leave_resolve.
+Print Assumptions enter_leave_scope.
+Print Assumptions enter_leave_scope_resolve.
+Print Assumptions new_leave_context.
+Print Assumptions function_restores.
+Print Assumptions enter_scope_resolve.
+Print Assumptions resolve_rename.
+Print Assumptions define_rename.
+Print Assumptions rollback_checkpoint_top.
+Print Assumptions rollback_after_ops.
+Print Assumptions rollback_after_open_body.
+Print Assumptions rollback_after_defines.
+Print Assumptions ex_wf.
+Print Assumptions ex_alive.
